@@ -252,6 +252,7 @@ fn pinned(ctx: &Ctx, rep: &mut Report, fx: &Fixture) {
             "pinned: UPDATE .. ORDER BY .. LIMIT .. RETURNING",
             Stmt::Upd(Upd {
                 with: None,
+                alias: None,
                 table: "t1".into(),
                 sets: vec![("a".into(), X::Int(5))],
                 from: vec![],
@@ -265,6 +266,7 @@ fn pinned(ctx: &Ctx, rep: &mut Report, fx: &Fixture) {
             "pinned: DELETE .. ORDER BY .. LIMIT .. RETURNING",
             Stmt::Del(Del {
                 with: None,
+                alias: None,
                 table: "t1".into(),
                 wheres: vec![],
                 orders: vec![Ord_ { expr: X::Col("id"), dir: Dir::Asc, nulls_first: None }],
